@@ -219,7 +219,7 @@ def binExec (op : BinOp) (ty : ITy) (a b : Val) : Except Err Val :=
     | .mat _ r c => do let z ← matMul r c m0 m1; .ok (.list z)
     | _ => .error (.internal "matmul-result-type")
   | .mMulV => do let m ← asList a; let v ← asList b; let z ← matMulVec m v; .ok (.list z)
-  | .sMulV => .error (.internal "unused-opcode")
+  | .invalid => .error (.internal "no-opcode-for-operation")
 
 /-! ### CAST (repaired: vectors and matrices are converted component-wise) -/
 
